@@ -94,3 +94,6 @@ impl<T> VpIter<T> {
 pub fn vp_enumerate<T>(v: Vec<T>) -> (r: VpIter<(usize, T)>)
     ensures r.rest().len() == v@.len(), forall|k: int| 0 <= k < v@.len() ==> (#[trigger] r.rest()[k]).0 == k && r.rest()[k].1 == v@[k],
 { unimplemented!() }
+/// rule R9: `v.into_iter()` handed to a generic `impl Iterator` parameter
+#[verifier::external_body]
+pub fn vp_vec_into_iter<T>(v: Vec<T>) -> (r: VpIter<T>) ensures r.rest() == v@ { unimplemented!() }
